@@ -14,6 +14,6 @@ cd "$S"
 for id in "$@"; do
   GGV_REPO=$W ./check "$id" --tier "${TIER:-quick}" 2>/dev/null | grep -E "^(VIOLATION|OK|FAIL|KNOWN)" | head -4 | sed "s#^#[$name] #"
 done
-if [ -n "${KEEP_REPLAY:-}" ]; then mkdir -p /tmp/sv-replay/$name; cp -r "$S"/replay/* /tmp/sv-replay/$name/ 2>/dev/null; fi
+if [ -n "${KEEP_REPLAY:-}" ]; then mkdir -p /tmp/sv-replay/$name; cp -r "$S"/replays/* /tmp/sv-replay/$name/ 2>/dev/null; fi
 (cd "$W" && git checkout -q -- . && git clean -fdq)
 rm -rf "$S"
